@@ -46,12 +46,16 @@ Definition collapse_state (n : nat) (qs : list nat) (shot : nat) (psi : list Zi)
   end.
 
 (* M.apply with collapse=True:  qubits = sorted(target_qubits); shot drawn from
-   calculate_probabilities(state, qubits) (oracle); result.add_shot appends
-   samples_to_binary(shot, len(qubits))[0]; the state is collapsed on the sorted qubits. *)
+   calculate_probabilities(state, qubits) (oracle); the state is collapsed on the sorted qubits;
+   MeasurementResult.add_shot computes bshot = samples_to_binary(shot, len(qubits)) (bits of the
+   SORTED qubits) and appends  bshot[:, [qubits.index(q) for q in self.target_qubits]],
+   i.e. the bits re-ordered to the gate's own qubit order. *)
 Record mapply := { recorded : bits ; collapsed : option (list Zi) ; cnorm2 : Z }.
+Definition reorder_bits (qs tq : list nat) (b : bits) : bits :=
+  map (fun q => nth (index_of q qs) b false) tq.
 Definition m_apply (n : nat) (tq : list nat) (shot : nat) (psi : list Zi) : mapply :=
   let qs := sort_nat tq in
-  {| recorded := to_bin (length qs) shot ;
+  {| recorded := reorder_bits qs tq (to_bin (length qs) shot) ;
      collapsed := collapse_state n qs shot psi ;
      cnorm2 := collapse_norm2 n qs shot psi |}.
 (* MeasurementSymbol(i, result).outcome() = result.samples()[-1][i]; symbol i belongs to
